@@ -1,0 +1,47 @@
+//go:build verif
+// +build verif
+
+// Contracts for the deductive verifier in /verif (govc). Comment-only: no executable code.
+package flowcontrol
+
+//@ interface (FlowControl).Resize(f, n, burst) props C05, C06, C09
+//@   modifies fcsize[f], fcburst[f]
+//@   ensures fcsize[f] == n && fcburst[f] == burst
+//@ interface (FlowControl).Type(f) props C05, C09
+//@   pure-def fcTypeOf(f)
+//@ interface (FlowControl).String(f) props C05, C09
+//@   pure
+//@ interface (FlowControl).TryAcquire(f) props C05
+//@   modifies held[f]
+//@   ensures (result ==> held[f] == old(held[f]) + 1) && (!result ==> held[f] == old(held[f]))
+//@ interface (FlowControl).Release(f) props C05
+//@   modifies held[f]
+//@   ensures held[f] == old(held[f]) - 1
+
+//@ func GuessFlowControlSchemaType props C05, C06
+//@   pure
+//@   ensures [exempt] config.Exempt != nil ==> result == "Exempt"
+//@   ensures [inflight] config.Exempt == nil && (config.MaxRequestsInflight != nil || config.GlobalMaxRequestsInflight != nil) ==> result == "MaxRequestsInflight"
+//@   ensures [bucket] config.Exempt == nil && config.MaxRequestsInflight == nil && config.GlobalMaxRequestsInflight == nil && (config.TokenBucket != nil || config.GlobalTokenBucket != nil) ==> result == "TokenBucket"
+//@   ensures [none] config.Exempt == nil && config.MaxRequestsInflight == nil && config.GlobalMaxRequestsInflight == nil && config.TokenBucket == nil && config.GlobalTokenBucket == nil ==> result == "Exempt"
+
+//@ func NewFlowControl props C05, C06, C16
+//@   requires [acc] (schema.GlobalMaxRequestsInflight != nil ==> schema.MaxRequestsInflight != nil) && (schema.GlobalTokenBucket != nil ==> schema.TokenBucket != nil)
+//@   panics-never
+//@   modifies mifmax, tbq, tbb
+//@   ensures [inflight] schema.Exempt == nil && schema.MaxRequestsInflight != nil ==> typeis(result, "*flowControl") && unbox(result, "*flowControl").max == uint32(schema.MaxRequestsInflight.Max) && mifmax[unbox(result, "*flowControl").TokenBucket] == uint32(schema.MaxRequestsInflight.Max) && unbox(result, "*flowControl").typ == "MaxRequestsInflight"
+//@   ensures [bucket] schema.Exempt == nil && schema.MaxRequestsInflight == nil && schema.TokenBucket != nil ==> typeis(result, "*resizeableTokenBucket") && tbq[unbox(result, "*resizeableTokenBucket").rateLimiter] == real(schema.TokenBucket.QPS) && tbb[unbox(result, "*resizeableTokenBucket").rateLimiter] == schema.TokenBucket.Burst && unbox(result, "*resizeableTokenBucket").qps == uint32(schema.TokenBucket.QPS) && unbox(result, "*resizeableTokenBucket").burst == uint32(schema.TokenBucket.Burst)
+//@   ensures [fresh] result != nil
+
+//@ func (*flowControl).Resize props C05
+//@   requires [bucket] f.TokenBucket != nil
+//@   modifies f.max, mifmax[f.TokenBucket]
+//@   ensures [size] f.max == n && (old(f.max) != n ==> mifmax[f.TokenBucket] == n) && result == (old(f.max) != n)
+
+//@ func (*resizeableTokenBucket).Resize props C06
+//@   modifies f.rateLimiter, f.qps, f.burst, tbq, tbb
+//@   ensures [swap_iff_changed] (old(f.qps) != n || old(f.burst) != burst) ==> result && f.qps == n && f.burst == burst && tbq[f.rateLimiter] == real(n) && tbb[f.rateLimiter] == burst
+//@   ensures [unchanged] old(f.qps) == n && old(f.burst) == burst ==> !result && f.rateLimiter == old(f.rateLimiter) && f.qps == n && f.burst == burst
+
+//@ func (*resizeableTokenBucket).TryAcquire props C06
+//@   pure
